@@ -402,3 +402,396 @@ Section Memory.
       intros Hin. apply Hnin. eapply Permutation_in; [|exact Hin]. now apply Permutation_map.
   Qed.
 End Memory.
+
+(* ------------------------------------------------------------------ *)
+(* insertion sort                                                      *)
+(* ------------------------------------------------------------------ *)
+Section Sort.
+  Context {A : Type} (leb : A -> A -> bool).
+  Notation R := (fun a b => leb a b = true).
+
+  Lemma insert_perm x l : Permutation (insert leb x l) (x :: l).
+  Proof.
+    induction l as [|y l IH]; cbn; [reflexivity|].
+    destruct (leb x y); [reflexivity|]. rewrite IH. apply perm_swap.
+  Qed.
+
+  Lemma isort_perm l : Permutation (isort leb l) l.
+  Proof.
+    induction l as [|x l IH]; cbn; [reflexivity|].
+    rewrite insert_perm. now constructor.
+  Qed.
+
+  Hypothesis total : forall a b, leb a b = true \/ leb b a = true.
+  Hypothesis trans : forall a b c, leb a b = true -> leb b c = true -> leb a c = true.
+
+  Lemma insert_hdrel a x l : R a x -> HdRel R a l -> HdRel R a (insert leb x l).
+  Proof.
+    intros Hax H. destruct l as [|y l]; cbn; [now constructor|].
+    destruct (leb x y); constructor; auto. now inversion H.
+  Qed.
+
+  Lemma insert_sorted x l : Sorted R l -> Sorted R (insert leb x l).
+  Proof using total.
+    induction 1 as [|a l Hs IH Hd]; cbn; [repeat constructor|].
+    destruct (leb x a) eqn:E.
+    - constructor; [now constructor|now constructor].
+    - constructor; [exact IH|]. apply insert_hdrel; auto.
+      destruct (total x a); congruence.
+  Qed.
+
+  Lemma isort_sorted l : StronglySorted R (isort leb l).
+  Proof using total trans.
+    apply Sorted_StronglySorted.
+    - intros a b c. apply trans.
+    - induction l as [|x l IH]; cbn; [constructor|]. now apply insert_sorted.
+  Qed.
+End Sort.
+
+Lemma StronglySorted_impl {A} (R R' : A -> A -> Prop) l :
+  (forall a b, In a l -> In b l -> R a b -> R' a b) -> StronglySorted R l -> StronglySorted R' l.
+Proof.
+  intros H Hs. induction Hs as [|x l Hs IH Hx]; constructor.
+  - apply IH. intros a b Ha Hb. apply H; now right.
+  - rewrite Forall_forall in *. intros b Hb. apply H; [now left|now right|now apply Hx].
+Qed.
+
+Lemma zsort_sorted l : StronglySorted Z.le (isort Z.leb l).
+Proof.
+  eapply StronglySorted_impl; [|apply isort_sorted].
+  - intros a b _ _ H. now apply Z.leb_le.
+  - intros a b. lia.
+  - intros a b c. lia.
+Qed.
+
+Lemma StronglySorted_filter {A} (R : A -> A -> Prop) f l :
+  StronglySorted R l -> StronglySorted R (filter f l).
+Proof.
+  induction 1 as [|x l Hs IH Hx]; cbn; [constructor|].
+  destruct (f x); [|exact IH]. constructor; [exact IH|].
+  rewrite Forall_forall in *. intros b Hb. apply filter_In in Hb. now apply Hx.
+Qed.
+
+Lemma Permutation_filter {A} (f : A -> bool) l l' :
+  Permutation l l' -> Permutation (filter f l) (filter f l').
+Proof.
+  induction 1 as [|x l l' Hp IH|x y l|l l' l'' H1 IH1 H2 IH2]; cbn.
+  - constructor.
+  - destruct (f x); [now constructor|exact IH].
+  - destruct (f x), (f y); try reflexivity. apply perm_swap.
+  - now rewrite IH1.
+Qed.
+
+(* a strictly increasing list of m integers from [0, m) is 0, 1, ..., m-1 *)
+Lemma ssorted_gap W : StronglySorted Z.lt W -> forall i j, (i <= j < length W)%nat ->
+  nth i W 0 + Z.of_nat (j - i) <= nth j W 0.
+Proof.
+  induction 1 as [|x W Hs IH Hx]; intros i j Hij; cbn in Hij; [lia|].
+  destruct i as [|i], j as [|j]; cbn [nth]; try lia.
+  - assert (Hin : In (nth 0 W 0) W) by (apply nth_In; lia).
+    rewrite Forall_forall in Hx. specialize (Hx _ Hin).
+    specialize (IH 0%nat j ltac:(lia)). lia.
+  - specialize (IH i j ltac:(lia)). replace (S j - S i)%nat with (j - i)%nat by lia. exact IH.
+Qed.
+
+Lemma ssorted_range_id W : StronglySorted Z.lt W ->
+  Forall (fun w => 0 <= w < Z.of_nat (length W)) W ->
+  forall r, (r < length W)%nat -> nth r W 0 = Z.of_nat r.
+Proof.
+  intros Hs Hr r Hlt. rewrite Forall_forall in Hr.
+  pose proof (ssorted_gap W Hs 0%nat r ltac:(lia)) as H1.
+  pose proof (ssorted_gap W Hs r (length W - 1)%nat ltac:(lia)) as H2.
+  assert (H0 : 0 <= nth 0 W 0) by (apply Hr, nth_In; lia).
+  assert (Hl : nth (length W - 1) W 0 < Z.of_nat (length W)) by (apply Hr, nth_In; lia).
+  lia.
+Qed.
+
+(* ------------------------------------------------------------------ *)
+(* the table as a function of the list of selected spikes              *)
+(* ------------------------------------------------------------------ *)
+Definition mk_table (l : list (Z * Z * Z)) : list row :=
+  let cl := map sp_cluster l in
+  map (fun e => mkRow (fst e) (sp_sample (snd e)) (sp_cluster (snd e)) (sp_chan (snd e))
+                      (wfi_of cl (fst e))) (enumerate l).
+
+Lemma combine_map_r {A B C} (f : B -> C) (a : list A) (b : list B) :
+  combine a (map f b) = map (fun e => (fst e, f (snd e))) (combine a b).
+Proof.
+  revert b. induction a as [|x a IH]; intros [|y b]; cbn; auto. now rewrite IH.
+Qed.
+
+Lemma enumerate_map {A B} (f : A -> B) l :
+  enumerate (map f l) = map (fun e => (fst e, f (snd e))) (enumerate l).
+Proof. unfold enumerate. now rewrite map_length, combine_map_r. Qed.
+
+Lemma enumerate_length {A} (l : list A) : length (enumerate l) = length l.
+Proof. unfold enumerate. rewrite combine_length, zrange_length. lia. Qed.
+
+Lemma enumerate_nth {A} (l : list A) k d : (k < length l)%nat ->
+  nth k (enumerate l) (0, d) = (Z.of_nat k, nth k l d).
+Proof.
+  intros H. unfold enumerate. rewrite combine_nth by now rewrite zrange_length.
+  now rewrite nth_zrange.
+Qed.
+
+Lemma enumerate_in {A} (l : list A) p x d : In (p, x) (enumerate l) ->
+  0 <= p < zlen l /\ x = nth (Z.to_nat p) l d.
+Proof.
+  intros H. destruct (In_nth _ _ (0, d) H) as [k [Hk Hn]].
+  rewrite enumerate_length in Hk. rewrite enumerate_nth in Hn by exact Hk.
+  inversion Hn; subst. unfold zlen. rewrite Nat2Z.id. split; [lia|reflexivity].
+Qed.
+
+Lemma enumerate_in_conv {A} (l : list A) p d : 0 <= p < zlen l ->
+  In (p, nth (Z.to_nat p) l d) (enumerate l).
+Proof.
+  intros H. unfold zlen in H.
+  replace (p, nth (Z.to_nat p) l d) with (nth (Z.to_nat p) (enumerate l) (0, d)).
+  - apply nth_In. rewrite enumerate_length. lia.
+  - rewrite enumerate_nth by lia. f_equal. lia.
+Qed.
+
+Lemma map_fst_combine {A B} (a : list A) (b : list B) : length a = length b -> map fst (combine a b) = a.
+Proof.
+  revert b. induction a as [|x a IH]; intros [|y b] H; cbn in *; try lia; auto. f_equal. apply IH. lia.
+Qed.
+
+Lemma map_snd_combine {A B} (a : list A) (b : list B) : length a = length b -> map snd (combine a b) = b.
+Proof.
+  revert b. induction a as [|x a IH]; intros [|y b] H; cbn in *; try lia; auto. f_equal. apply IH. lia.
+Qed.
+
+Lemma mk_table_length l : length (mk_table l) = length l.
+Proof. unfold mk_table. cbv zeta. now rewrite map_length, enumerate_length. Qed.
+
+Lemma nth_map' {A B} (f : A -> B) l k d d' : (k < length l)%nat -> nth k (map f l) d' = f (nth k l d).
+Proof.
+  intros H. rewrite nth_indep with (d' := f d) by (rewrite map_length; lia). apply map_nth.
+Qed.
+
+Lemma mk_table_nth l k : (k < length l)%nat ->
+  nth k (mk_table l) drow =
+  let x := nth k l dspike in
+  mkRow (Z.of_nat k) (sp_sample x) (sp_cluster x) (sp_chan x) (wfi_of (map sp_cluster l) (Z.of_nat k)).
+Proof.
+  intros H. unfold mk_table. cbv zeta.
+  rewrite (nth_map' _ _ _ (0, dspike)) by now rewrite enumerate_length.
+  rewrite enumerate_nth by exact H. reflexivity.
+Qed.
+
+Lemma mk_table_in l r : In r (mk_table l) ->
+  exists k, (k < length l)%nat /\ r = nth k (mk_table l) drow.
+Proof.
+  intros H. destruct (In_nth _ _ drow H) as [k [Hk Hn]]. rewrite mk_table_length in Hk.
+  exists k. split; [exact Hk|now symmetry].
+Qed.
+
+(* counting *)
+Lemma count_if_app f a b : count_if f (a ++ b) = count_if f a + count_if f b.
+Proof. unfold count_if, zlen. rewrite filter_app, app_length. lia. Qed.
+
+Lemma count_if_nonneg f l : 0 <= count_if f l.
+Proof. unfold count_if. apply zlen_nonneg. Qed.
+
+Lemma count_if_cons f x l : count_if f (x :: l) = (if f x then 1 else 0) + count_if f l.
+Proof. unfold count_if, zlen. cbn. destruct (f x); cbn [length]; lia. Qed.
+
+Lemma count_lt_eq_le c c' l : c < c' ->
+  count_if (fun x => x <? c) l + count_if (fun x => x =? c) l <= count_if (fun x => x <? c') l.
+Proof.
+  intros H. induction l as [|x l IH]; [cbn; lia|]. rewrite !count_if_cons.
+  destruct (x <? c) eqn:E1, (x =? c) eqn:E2, (x <? c') eqn:E3; lia.
+Qed.
+
+Lemma count_lt_eq_len c l :
+  count_if (fun x => x <? c) l + count_if (fun x => x =? c) l <= zlen l.
+Proof.
+  induction l as [|x l IH]; [cbn; lia|]. rewrite !count_if_cons. unfold zlen in *. cbn [length].
+  destruct (x <? c) eqn:E1, (x =? c) eqn:E2; lia.
+Qed.
+
+(* position k holds c: strictly fewer c's before k than before any later position / in total *)
+Lemma count_eq_prefix_lt c l k k' : (k < k' <= length l)%nat -> nth k l 0 = c ->
+  count_if (fun x => x =? c) (firstn k l) < count_if (fun x => x =? c) (firstn k' l).
+Proof.
+  intros Hk Hc. replace k' with (k + (k' - k))%nat by lia.
+  rewrite <- firstn_skipn_app, count_if_app.
+  rewrite (skipn_cons_nth l k 0) by lia.
+  destruct (k' - k)%nat as [|d] eqn:E; [lia|]. cbn [firstn]. rewrite count_if_cons, Hc, Z.eqb_refl.
+  pose proof (count_if_nonneg (fun x => x =? c) (firstn d (skipn (S k) l))). lia.
+Qed.
+
+Lemma count_eq_prefix_total c l k : (k < length l)%nat -> nth k l 0 = c ->
+  count_if (fun x => x =? c) (firstn k l) < count_if (fun x => x =? c) l.
+Proof.
+  intros Hk Hc. pose proof (count_eq_prefix_lt c l k (length l) ltac:(lia) Hc) as H.
+  now rewrite firstn_all in H.
+Qed.
+
+Lemma count_eq_prefix_le c l k : count_if (fun x => x =? c) (firstn k l) <= count_if (fun x => x =? c) l.
+Proof.
+  rewrite <- (firstn_skipn k l) at 2. rewrite count_if_app.
+  pose proof (count_if_nonneg (fun x => x =? c) (skipn k l)). lia.
+Qed.
+
+Section Rank.
+  Variable cl : list Z.
+  Notation wfi k := (wfi_of cl (Z.of_nat k)).
+
+  Lemma wfi_unfold k : wfi k = count_if (fun x => x <? nth k cl 0) cl +
+                               count_if (fun x => x =? nth k cl 0) (firstn k cl).
+  Proof. unfold wfi_of, znth. now rewrite Nat2Z.id. Qed.
+
+  Lemma wfi_range k : (k < length cl)%nat -> 0 <= wfi k < zlen cl.
+  Proof.
+    intros H. rewrite wfi_unfold.
+    pose proof (count_eq_prefix_total _ cl k H eq_refl).
+    pose proof (count_lt_eq_len (nth k cl 0) cl).
+    pose proof (count_if_nonneg (fun x => x <? nth k cl 0) cl).
+    pose proof (count_if_nonneg (fun x => x =? nth k cl 0) (firstn k cl)). lia.
+  Qed.
+
+  Lemma wfi_lt_cluster k k' : (k < length cl)%nat -> (k' < length cl)%nat ->
+    nth k cl 0 < nth k' cl 0 -> wfi k < wfi k'.
+  Proof.
+    intros Hk Hk' Hc. rewrite !wfi_unfold.
+    pose proof (count_eq_prefix_total _ cl k Hk eq_refl).
+    pose proof (count_lt_eq_le _ _ cl Hc).
+    pose proof (count_if_nonneg (fun x => x =? nth k' cl 0) (firstn k' cl)). lia.
+  Qed.
+
+  Lemma wfi_lt_pos k k' : (k < k' < length cl)%nat -> nth k cl 0 = nth k' cl 0 -> wfi k < wfi k'.
+  Proof.
+    intros Hk Hc. rewrite !wfi_unfold. rewrite <- Hc.
+    pose proof (count_eq_prefix_lt _ cl k k' ltac:(lia) eq_refl). lia.
+  Qed.
+End Rank.
+
+Lemma row_leb_total a b : row_leb a b = true \/ row_leb b a = true.
+Proof.
+  unfold row_leb.
+  destruct (r_cluster a <? r_cluster b) eqn:E1, (r_cluster b <? r_cluster a) eqn:E2,
+           (r_sample a <? r_sample b) eqn:E3, (r_sample b <? r_sample a) eqn:E4; lia.
+Qed.
+
+Lemma row_leb_trans a b c : row_leb a b = true -> row_leb b c = true -> row_leb a c = true.
+Proof.
+  unfold row_leb.
+  destruct (r_cluster a <? r_cluster b) eqn:E1, (r_cluster b <? r_cluster a) eqn:E2,
+           (r_sample a <? r_sample b) eqn:E3, (r_sample b <? r_sample a) eqn:E4,
+           (r_cluster b <? r_cluster c) eqn:E5, (r_cluster c <? r_cluster b) eqn:E6,
+           (r_sample b <? r_sample c) eqn:E7, (r_sample c <? r_sample b) eqn:E8,
+           (r_cluster a <? r_cluster c) eqn:E9, (r_cluster c <? r_cluster a) eqn:E10,
+           (r_sample a <? r_sample c) eqn:E11, (r_sample c <? r_sample a) eqn:E12; lia.
+Qed.
+
+Lemma sorted_le_nth sm : StronglySorted Z.le sm -> forall i j, (i <= j < length sm)%nat ->
+  nth i sm 0 <= nth j sm 0.
+Proof.
+  induction 1 as [|x sm Hs IH Hx]; intros i j Hij; cbn in Hij; [lia|].
+  destruct i as [|i], j as [|j]; cbn [nth]; try lia.
+  - rewrite Forall_forall in Hx. apply Hx, nth_In. lia.
+  - apply IH. lia.
+Qed.
+
+(* ------------------------------------------------------------------ *)
+(* after the final sort, row r has waveform_index r                    *)
+(* ------------------------------------------------------------------ *)
+Section SortedTable.
+  Variable l : list (Z * Z * Z).
+  Hypothesis Hasc : StronglySorted Z.le (map sp_sample l).
+  Set Default Proof Using "Hasc".
+  Notation T := (mk_table l).
+  Notation cl := (map sp_cluster l).
+
+  Lemma cl_nth k : (k < length l)%nat -> nth k cl 0 = sp_cluster (nth k l dspike).
+  Proof. intros H. now apply nth_map'. Qed.
+
+  Lemma row_order k k' : (k < length l)%nat -> (k' < length l)%nat -> k <> k' ->
+    row_leb (nth k T drow) (nth k' T drow) = true ->
+    r_wfi (nth k T drow) < r_wfi (nth k' T drow).
+  Proof.
+    intros Hk Hk' Hne. rewrite !mk_table_nth by assumption. cbv zeta.
+    unfold row_leb. cbn [r_cluster r_sample r_index r_wfi].
+    pose proof (cl_nth k Hk) as Ec. pose proof (cl_nth k' Hk') as Ec'.
+    assert (Hs : forall i j, (i <= j < length l)%nat ->
+                 sp_sample (nth i l dspike) <= sp_sample (nth j l dspike)).
+    { intros i j Hij. pose proof (sorted_le_nth _ Hasc i j) as H.
+      rewrite map_length in H. specialize (H Hij).
+      rewrite !(nth_map' sp_sample l _ dspike 0) in H by lia. exact H. }
+    assert (Hl : length cl = length l) by apply map_length.
+    destruct (sp_cluster (nth k l dspike) <? sp_cluster (nth k' l dspike)) eqn:E1.
+    - intros _. apply wfi_lt_cluster; lia.
+    - destruct (sp_cluster (nth k' l dspike) <? sp_cluster (nth k l dspike)) eqn:E2; [discriminate|].
+      assert (Hkk : (k < k')%nat -> wfi_of cl (Z.of_nat k) < wfi_of cl (Z.of_nat k')).
+      { intros Hlt. apply wfi_lt_pos; lia. }
+      destruct (sp_sample (nth k l dspike) <? sp_sample (nth k' l dspike)) eqn:E3.
+      + intros _. apply Hkk. destruct (Nat.lt_ge_cases k k') as [|Hge]; [assumption|].
+        specialize (Hs k' k ltac:(lia)). lia.
+      + destruct (sp_sample (nth k' l dspike) <? sp_sample (nth k l dspike)) eqn:E4; [discriminate|].
+        intros Hi. apply Hkk. lia.
+  Qed.
+
+  Lemma mk_table_index : map r_index T = zrange (length l).
+  Proof.
+    unfold mk_table. cbv zeta. rewrite map_map. cbn [r_index].
+    unfold enumerate. apply map_fst_combine. now rewrite zrange_length.
+  Qed.
+
+  Lemma row_index_nth k : (k < length l)%nat -> r_index (nth k T drow) = Z.of_nat k.
+  Proof. intros H. now rewrite mk_table_nth. Qed.
+
+  Lemma sorted_wfi_increasing S : StronglySorted (fun a b => row_leb a b = true) S ->
+    (forall x, In x S -> In x T) -> NoDup (map r_index S) ->
+    StronglySorted Z.lt (map r_wfi S).
+  Proof.
+    induction 1 as [|a S Hs IH Ha]; intros Hin Hnd; cbn; [constructor|].
+    cbn in Hnd. inversion Hnd as [|? ? Hna Hnd']; subst.
+    constructor; [apply IH; auto; intros x Hx; apply Hin; now right|].
+    rewrite Forall_forall. intros w Hw. apply in_map_iff in Hw. destruct Hw as [b [<- Hb]].
+    rewrite Forall_forall in Ha. specialize (Ha b Hb).
+    destruct (mk_table_in l a (Hin a (or_introl eq_refl))) as [k [Hk Ea]].
+    destruct (mk_table_in l b (Hin b (or_intror Hb))) as [k' [Hk' Eb]].
+    assert (Hne : k <> k').
+    { intros ->. apply Hna. apply in_map_iff. exists b. split; [congruence|exact Hb]. }
+    rewrite Ea, Eb in Ha |- *. apply row_order; auto.
+  Qed.
+
+  Lemma sorted_wfi_id r : (r < length l)%nat ->
+    r_wfi (nth r (isort row_leb T) drow) = Z.of_nat r.
+  Proof.
+    intros Hr. set (S := isort row_leb T).
+    assert (Hp : Permutation S T) by apply isort_perm.
+    assert (Hlen : length S = length l).
+    { rewrite (Permutation_length Hp). apply mk_table_length. }
+    assert (Hss : StronglySorted Z.lt (map r_wfi S)).
+    { apply sorted_wfi_increasing.
+      - apply isort_sorted; [apply row_leb_total|apply row_leb_trans].
+      - intros x Hx. eapply Permutation_in; eauto.
+      - eapply Permutation_NoDup; [apply Permutation_map; symmetry; exact Hp|].
+        rewrite mk_table_index. apply NoDup_zrange. }
+    rewrite <- (nth_map' r_wfi S r drow 0) by lia.
+    apply ssorted_range_id; [exact Hss| |rewrite map_length; lia].
+    rewrite map_length, Hlen, Forall_map, Forall_forall. intros x Hx.
+    assert (HxT : In x T) by (eapply Permutation_in; eauto).
+    destruct (mk_table_in l x HxT) as [k [Hk ->]]. rewrite mk_table_nth by exact Hk. cbv zeta. cbn [r_wfi].
+    pose proof (wfi_range cl k) as Hw. unfold zlen in Hw. rewrite map_length in Hw. now apply Hw.
+  Qed.
+
+  (* distinct rows get distinct waveform indices: the keys of the writes are pairwise different *)
+  Lemma mk_table_wfi_nodup : NoDup (map (fun r => Z.to_nat (r_wfi r)) T).
+  Proof.
+    set (S := isort row_leb T).
+    assert (Hp : Permutation S T) by apply isort_perm.
+    eapply Permutation_NoDup; [apply Permutation_map; exact Hp|].
+    assert (Hlen : length S = length l).
+    { rewrite (Permutation_length Hp). apply mk_table_length. }
+    assert (E : map (fun r => Z.to_nat (r_wfi r)) S = seq 0 (length l)).
+    { apply nth_ext with (d := O) (d' := O); [now rewrite map_length, seq_length|].
+      intros n Hn. rewrite map_length in Hn.
+      rewrite (nth_map' _ S n drow) by exact Hn. unfold S. rewrite sorted_wfi_id by lia.
+      rewrite seq_nth by lia. lia. }
+    rewrite E. apply seq_NoDup.
+  Qed.
+End SortedTable.
+Set Default Proof Using "Type".
